@@ -294,9 +294,12 @@ def h_expand(ctx):
     lts = ctx.choose("-lt", subsets([0, 6, 12, 24, 30]) + [(24, 0, 12, 6), (30, 12, 0), (12, 6), (24, 12, 6, 0), (6, 30, 0)], free=True)
     tod = ctx.choose("input-init-hour", (0, 6), free=True)
     locs = gen.std_locs(2, seed)
-    times = [T0 + tod * 3600 + i * DAY for i in range(2)]
-    if ctx.choose("input-time-order", ("ascending", "descending"), free=True) == "descending":
+    times = [T0 + tod * 3600 + i * DAY for i in range(3)]
+    order = ctx.choose("input-time-order", ("ascending", "descending", "rotated"), free=True)
+    if order == "descending":
         times = times[::-1]           # a NetCDF file keeps this storage order (the text reader sorts)
+    elif order == "rotated":
+        times = [times[2], times[0], times[1]]
     leads = [0.0, 6.0, 18.0, 24.0]
     ai = gen.AInput("in", times, leads, locs, variable="T", units="K")
     # observations are a function of the VALID time (inputs whose valid times collide agree)
@@ -365,7 +368,7 @@ def run(tier, only=None):
         st = explore.explore(h, mode=mode, k=k, params=params, repo_root=core.REPO, time_cap=(300 if tier == "quick" else 3000))
         bound = {"accumulate": "full {text,nc} x 6 windows x 2 axes x -i, dev(%d) over missing cells" % k,
                  "ens2prob": "full {text,nc} x 1-3 members x ordered threshold selections x ordered level selections x -p, dev(%d) over missing obs/member/fcst" % k,
-                 "expandverif": "full {text,nc} x 9 -i lists x 36 -lt lists (ascending subsets and permuted / descending ones) x 2 input init hours x {ascending, descending} input time axis, dev(1) missing obs"}[name]
+                 "expandverif": "full {text,nc} x 9 -i lists x 36 -lt lists (ascending subsets and permuted / descending ones) x 2 input init hours x {ascending, descending, rotated} input time axis of three days, dev(1) missing obs"}[name]
         subs.append(core.Sub.from_e1(name, st, bound=bound, rule="one execution = one script run, every output cell compared with the reference transformation",
                                      required_flags=("pit-missing-obs", "decimal-tie") if name == "ens2prob" else (), wall=time.time() - t0))
     return subs
